@@ -153,3 +153,31 @@ META["C01"] = dict(
         "untagged Unions: a value is judged only if no other member reads its owner's serialisation differently",
     ],
 )
+
+META["C10"] = dict(
+    title="Parse results are fixed points: re-parsing or validating changes nothing",
+    level="exploration",
+    level_text="Idempotence monitor on every accepted result of generated parsers (same grammar as C01) reached through six "
+    "channels (parse_object, parse_args, parse_string, parse_path, --cfg file, defaults only): validate(C) must pass, "
+    "parse_object(C) must return an equal configuration (type for type), from the original and from another working "
+    "directory, and dump(parse_string(dump(C))) must be byte-identical to dump(C) in yaml and json.",
+    level_note="Trusted: the comparator. The dump-parse-dump clause is judged only when the re-parsed configuration equals C "
+    "(otherwise the difference is C01's and is counted, not double-reported).",
+    shards=g(4, 16),
+    budget=g(45, 300),
+    technique="idempotence/fixed-point monitor at the API boundary (validate, parse_object, dump-parse-dump byte comparison)",
+    rule="a case is (channel, multiset of argument type skeletons, lexical classes of strings in the result); distinct by hash; "
+    "non-trivial = the source parse was accepted.",
+    gates={
+        "mon.validate": g(2000, 20000),
+        "mon.reparse_object": g(2000, 20000),
+        "mon.dump_parse_dump.yaml": g(500, 5000),
+        "mon.dump_parse_dump.json": g(500, 5000),
+        "ev.parse_args.accepted": g(100, 1000), "ev.parse_object.accepted": g(100, 1000), "ev.parse_string.accepted": g(100, 1000),
+        "ev.parse_path.accepted": g(100, 1000), "ev.parse_args_cfg.accepted": g(100, 1000), "ev.defaults_only.accepted": g(100, 1000),
+        "st.result_kind.enum": g(50, 500), "st.result_kind.tuple": g(50, 500), "st.result_kind.set": g(30, 300),
+        "st.result_kind.reg": g(50, 500), "st.result_kind.dataclass": g(30, 300), "st.result_kind.class": g(10, 100),
+        "st.result_kind.dict": g(50, 500), "st.result_kind.union": g(50, 500),
+    },
+    assumptions=["provenance keys are not configuration", "SecretStr is masked in dumps by design (C20) and excluded"],
+)
